@@ -172,8 +172,14 @@ def _check_main(ctx, rep: Report):
     # ---- ORD
     rep.rules["C19.ORD"] = "no foreign spec-class lookups from the bootstrap region"
     forbidden = ("get_spec_class_for_type", ".spec_type", ".item_spec_type", ".item_spec_key_type", ".spec_type_polymorphic", ".constructor", ".item_constructor")
-    for q in ("spec_class.bootstrap", "spec_class.build_attr_spec", "SpecClassMetadata.for_class", "spec_class.get_methods_for_attribute",
-              "spec_class.register_methods", "spec_class.register_method", "Attr.from_attr_value"):
+    region = ["spec_class.bootstrap", "spec_class.build_attr_spec", "SpecClassMetadata.for_class", "spec_class.get_methods_for_attribute",
+              "spec_class.register_methods", "spec_class.register_method", "Attr.from_attr_value", "spec_class.get_methods_for_spec_class"]
+    # the core methods are *built* inside bootstrap (`.method`), through the signature builder
+    for cname in ("InitMethod", "ReprMethod", "EqMethod", "GetAttrMethod", "SetAttrMethod", "DelAttrMethod", "DeepCopyMethod"):
+        region.append(f"{cname}.build_method")
+    mb = ctx.p.find_class("MethodBuilder")
+    region += [f"MethodBuilder.{m_}" for m_ in mb.methods]
+    for q in region:
         fi = ctx.p.find_function(q)
         src = ast.unparse(fi.node)
         hits = [f for f in forbidden if f in src]
